@@ -54,12 +54,36 @@ func parseBindSites(s string) ([]bindSite, bool) {
 	return out, len(out) <= 10
 }
 
-func runBind(line, sitesF string) core.Outcome {
+func runBind(line, sitesF string) core.Outcome { return runDbind(line, "", sitesF) }
+
+// `dbind <dflt> <sites>`: the same with `default_bind` global options (a bind address `0` =
+// no address argument).
+func runDbind(line, dfltF, sitesF string) core.Outcome {
 	sites, ok := parseBindSites(sitesF)
 	if !ok {
 		return core.Outcome{Impl: "bad-op", Tags: []string{"bad-op", "trivial"}}
 	}
 	var sb strings.Builder
+	if dfltF != "" {
+		ds, ok := parseBindSites(dfltF)
+		if !ok || len(ds) != 1 || len(ds[0].binds) == 0 || len(ds[0].binds) > 4 {
+			return core.Outcome{Impl: "bad-op", Tags: []string{"bad-op", "trivial"}}
+		}
+		sb.WriteString("{\n")
+		for _, b := range ds[0].binds {
+			sb.WriteString("\tdefault_bind")
+			for _, a := range b[0] {
+				if a != "0" {
+					sb.WriteString(" " + a)
+				}
+			}
+			if len(b[1]) > 0 {
+				sb.WriteString(" {\n\t\tprotocols " + strings.Join(b[1], " ") + "\n\t}")
+			}
+			sb.WriteString("\n")
+		}
+		sb.WriteString("}\n")
+	}
 	mixed := false
 	for i, s := range sites {
 		fmt.Fprintf(&sb, "http://h%d.test:8080 {\n", i)
@@ -188,8 +212,11 @@ func runBind(line, sitesF string) core.Outcome {
 			shared = true
 		}
 	}
+	if dfltF != "" {
+		o.Tags = append(o.Tags, "bind:default_bind")
+	}
 	switch {
-	case len(sites) == 1 && len(sites[0].binds) == 0:
+	case len(sites) == 1 && len(sites[0].binds) == 0 && dfltF == "":
 		o.Tags = append(o.Tags, "trivial")
 	case shared:
 		o.Tags = append(o.Tags, "bind:address-on-two-servers")
@@ -201,6 +228,20 @@ func runBind(line, sitesF string) core.Outcome {
 		o.Tags = append(o.Tags, "bind:plain")
 	}
 	return o
+}
+
+func genDbindCase(r *core.Rand) string {
+	addrs := []string{"127.0.0.1", "127.0.0.2", "0"}
+	prots := []string{"h1", "h1+h2", "h1+h3", "h2"}
+	var ds []string
+	for k := 1 + r.Intn(2); k > 0; k-- {
+		p := "-"
+		if r.Chance(1, 2) {
+			p = r.Pick(prots)
+		}
+		ds = append(ds, r.Pick(addrs)+"/"+p)
+	}
+	return "dbind " + strings.Join(ds, ",") + " " + strings.TrimPrefix(genBindCase(r), "bind ")
 }
 
 func genBindCase(r *core.Rand) string {
